@@ -117,6 +117,13 @@ type SimStore struct {
 	St  *StoreState
 	// NoRemove makes RemoveBlobs return ErrNotImplemented.
 	NoRemove bool
+	// ShortPages > 0: EnumerateBlobs sends at most that many blobs per call,
+	// whatever the limit (the BlobEnumerator contract says "at most limit";
+	// some remote stores send less while more follow). Only for stores that
+	// perkeep reads through blobserver.EnumerateAll alone (which goes on
+	// until a call yields nothing): perkeep's merging and paging wrappers
+	// take a short page for the end, so it is not used under them.
+	ShortPages int
 }
 
 var (
@@ -332,6 +339,11 @@ func (s *SimStore) EnumerateBlobs(ctx context.Context, dest chan<- blob.SizedRef
 		}
 		n++
 		if limit > 0 && n == limit {
+			break
+		}
+		if s.ShortPages > 0 && n == s.ShortPages {
+			// a store that sends fewer blobs per call than it was asked for
+			// ("at most limit"): more follow after the last one sent
 			break
 		}
 	}
